@@ -232,6 +232,29 @@ def misc_cases(_=None):
     f2.parse([ser.serialize(cfg)])
     if canon.canon(f2.value) != canon.canon(cfg):
       bad(f'FiddleFlagSerializer round trip of {name} differs')
+  # mutable literal arguments: every directive gets its own freshly evaluated objects, so an
+  # in-place edit made through one flag (or one directive) is never seen by another
+  n += 1
+  text = 'config:with_list(layers=[16, 32])'
+  f1, f2 = make_flag(), make_flag()
+  f1.parse([text]); f2.parse([text])
+  v1, v2 = f1.value, f2.value
+  f1.parse(['set:p[0]=7'])
+  if list(f1.value.p) != [7, 32]:
+    bad(f'set:p[0]=7 gave {f1.value.p}')
+  if list(f2.value.p) != [16, 32]:
+    bad(f'an override applied to one flag changed an independent flag built from the same text: {f2.value.p}')
+  f3 = make_flag()
+  f3.parse([text])
+  if list(f3.value.p) != [16, 32]:
+    bad(f'a flag parsed after an override of another flag starts with {f3.value.p} instead of [16, 32]')
+  n += 1
+  f4 = make_flag()
+  f4.parse(['config:with_list(layers=[0])', 'fiddler:set_layers(layers=[1, 2])', 'fiddler:widen(factor=10)',
+            'set:p[1]=5', 'fiddler:set_layers(layers=[1, 2])', 'fiddler:widen(factor=2)'])
+  if list(f4.value.p) != [2, 4]:
+    bad(f'directives applied in order give p == [2, 4]; the flag produced {f4.value.p} (a literal '
+        'argument of an earlier directive was reused)')
   # call expressions with literal arguments
   for src, fn, args, kwargs in [("f", 'f', (), {}), ("f()", 'f', (), {}), ("a.b.f(1, 'x', k=[1, {'z': None}])", 'a.b.f', (1, 'x'), {'k': [1, {'z': None}]}),
                                 ("f(-1.5, (1, 2), t=True)", 'f', (-1.5, (1, 2)), {'t': True})]:
@@ -267,6 +290,7 @@ def run(tier='quick', seed=0, nproc=16):
            'enumeration, path parsed by the override parser and followed, path=repr(v) written back for '
            '%d new values and compared with a direct edit; directive sequences (config/set/fiddler, '
            'immutable fiddlers) of length <= %d vs strictly sequential application, parsed at once and '
-           'incrementally; base-config rules; config_str and serializer round trips; call expressions'
+           'incrementally; base-config rules; config_str and serializer round trips; call expressions; '
+           'mutable literal arguments are fresh per directive and per flag'
            % (len(NEW_VALUES), k),
       exhaustive=False, bound='10 configurations; directive sequences <= %d' % k)
